@@ -676,6 +676,25 @@ def cond_call(c):
     return None
 
 
+def is_cancelled_test(e):
+    """`<..>.status == Status::Cancelled` (either order)"""
+    e = peel(e)
+    if e.get("k") != "Binary" or e.get("op") != "Eq":
+        return False
+    sides = [peel(e["l"]), peel(e["r"])]
+    has_status = any(s_.get("k") == "Field" and s_.get("field") == "status" for s_ in sides)
+    has_const = any(s_.get("k") == "Path" and ((s_.get("res") or {}).get("ctor_path") or "").endswith("Status::Cancelled") for s_ in sides)
+    return has_status and has_const
+
+
+def is_cancel_write(n):
+    """`<..>.status = Status::Cancelled` on a TransformStatus"""
+    if n.get("k") != "Assign":
+        return False
+    l, r = peel(n["l"]), peel(n["r"])
+    return l.get("k") == "Field" and l.get("field") == "status" and "TransformStatus" in (l.get("base_ty") or "") and r.get("k") == "Path" and ((r.get("res") or {}).get("ctor_path") or "").endswith("Status::Cancelled")
+
+
 def pat_variant(p):
     """Constructor path matched by a pattern (peeling refs/boxes/bindings with sub-patterns)."""
     while True:
